@@ -1,2 +1,348 @@
-(* C05 -- placeholder while the proofs are being written *)
-From BV Require Import Model.BuildersChoice.
+(* C05 -- Choice models return proper probability distributions over the available options.
+   Property theorems only; each is closed by [exact] of a lemma proved in Proofs/Choice*.v.
+
+   Reading guide.  The builders (Model/BuildersChoice.v: logit, mev, nested, cnl, ... mirror the
+   Python functions node for node, tie = stream C05/build) return a tree; [evalX Phi t en] is its
+   mathematical value in the environment [en] (one observation: parameter values, row of data).
+   [uval k] / [aval k] are the real values of the utility / availability expressions of
+   alternative k in that environment; "computed for one observation" = for a fixed [en], the
+   probability of alternative i is the value of the tree built with a choice expression whose
+   value is i.  [is_distribution ks aval p]: p in [0,1] on ks, p = 0 where aval = 0, sum = 1. *)
+From Coq Require Import Reals List ZArith String.
+From BV Require Import Proofs.BuildersChoiceP.
+Open Scope R_scope.
+
+(* ------------------------------------------------------------------ logit *)
+(* T05a/b/c (+ T05h for logit) *)
+Theorem T05a_logit_proper : forall Phi en (util : dict pv) (av : avail) (aval uval : Z -> R),
+  av_ok Phi en av aval -> av_covers av (keys util) ->
+  (forall k p, In (k, p) util -> aval k <> 0 -> pvX Phi en p = XR (uval k)) ->
+  (exists k, In k (keys util) /\ aval k <> 0) ->
+  let p := logit_p aval uval (keys util) in
+  (forall i ch, In i (keys util) -> pvX Phi en ch = XR (IZR i) ->
+     exists t l, logit util av ch = Ok t /\ loglogit util av ch = Ok l /\
+                 evalX Phi t en = XR (p i) /\
+                 evalX Phi l en = (if Rnz (aval i) then XR (ln (p i)) else XmInf) /\
+                 evalX Phi t en = xun Phi Exp (evalX Phi l en)) /\
+  is_distribution (keys util) aval p.
+Proof. exact logit_proper. Qed.
+Print Assumptions T05a_logit_proper.
+
+Definition en0 : env := mkEnv (fun _ => Some 2) (fun _ => Some 0) (fun _ => None) (fun _ => None) [] [].
+Definition U0 : dict expr := [(1, EVar "x1"); (2, EVar "x2"); (3, EVar "x3")]%Z.
+Definition A0 : avail := Some [(1, PN d_one); (2, PE (EVar "a2")); (3, PN d_one)]%Z.
+Definition aval0 (k : Z) : R := if (k =? 2)%Z then 0 else 1.
+
+Ltac in_cases H :=
+  simpl in H; repeat (destruct H as [H|H]; [injection H as <- <-|]); try contradiction.
+
+(* non-vacuity: three alternatives, the second one unavailable *)
+Example T05a_example : forall Phi,
+  av_ok Phi en0 A0 aval0 /\ av_covers A0 (keys (pe_dict U0)) /\
+  (forall k p, In (k, p) (pe_dict U0) -> aval0 k <> 0 -> pvX Phi en0 p = XR ((fun _ => 0) k)) /\
+  (exists k, In k (keys (pe_dict U0)) /\ aval0 k <> 0).
+Proof.
+  intros Phi. split; [|split; [|split]].
+  - intros k p H. in_cases H; unfold pvX, aval0; simpl; rewrite ?D2R_one; reflexivity.
+  - intros k H. exact H.
+  - intros k p H _. in_cases H; reflexivity.
+  - exists 1%Z. split; [now left|]. unfold aval0. simpl. apply R1_neq_R0.
+Qed.
+
+(* ------------------------------------------------------------------ MEV with user-supplied ln G_i *)
+Theorem T05d_mev_proper : forall Phi en util (lg : Z -> res pv) av aval,
+  NoDup (keys util) ->
+  av_ok Phi en av aval -> av_covers av (keys util) ->
+  (forall k, In k (keys util) -> exists g, lg k = Ok g) ->
+  (forall k v g, In (k, v) util -> lg k = Ok g -> aval k <> 0 ->
+                 exists x y, pvX Phi en v = XR x /\ pvX Phi en g = XR y) ->
+  (exists k, In k (keys util) /\ aval k <> 0) ->
+  exists p,
+    (forall i ch, In i (keys util) -> pvX Phi en ch = XR (IZR i) ->
+       exists l, logmev_f util lg av ch = Ok l /\
+                 evalX Phi (EUn Exp l) en = XR (p i) /\
+                 evalX Phi l en = (if Rnz (aval i) then XR (ln (p i)) else XmInf)) /\
+    is_distribution (keys util) aval p.
+Proof. exact mev_proper. Qed.
+Print Assumptions T05d_mev_proper.
+
+Example T05d_example : forall Phi,
+  let lg := fun k => of_option 2 (get [(1, PE (EVar "g1")); (2, PN d_zero); (3, PE (EBeta "b" false))]%Z k) in
+  NoDup (keys (pe_dict U0)) /\ av_ok Phi en0 A0 aval0 /\
+  (forall k, In k (keys (pe_dict U0)) -> exists g, lg k = Ok g) /\
+  (forall k v g, In (k, v) (pe_dict U0) -> lg k = Ok g -> aval0 k <> 0 ->
+                 exists x y, pvX Phi en0 v = XR x /\ pvX Phi en0 g = XR y).
+Proof.
+  intros Phi lg. split; [|split; [|split]].
+  - simpl. repeat constructor; simpl; intuition congruence.
+  - apply T05a_example.
+  - intros k H. simpl in H. destruct H as [<-|[<-|[<-|[]]]]; eexists; reflexivity.
+  - intros k v g H Hg _. in_cases H; unfold lg in Hg; simpl in Hg; injection Hg as <-;
+      eexists; eexists; split; reflexivity.
+Qed.
+
+(* ------------------------------------------------------------------ nested logit *)
+Theorem T05e_nested_proper : forall Phi en (U : dict expr) (av : avail) (a : nn_arg) (aval uval : Z -> R),
+  av_ok Phi en av aval -> av_covers av (keys U) ->
+  (forall k e, In (k, e) U -> aval k <> 0 -> evalX Phi e en = XR (uval k)) ->
+  nests_ok Phi en (nn_arg_nests a) ->
+  (exists k, In k (keys U) /\ aval k <> 0) ->
+  (exists ch0 t0, lognested (pe_dict U) av a ch0 = Ok t0) ->
+  exists p,
+    (forall i ch, In i (keys U) -> pvX Phi en ch = XR (IZR i) ->
+       exists l, lognested (pe_dict U) av a ch = Ok l /\
+                 nested (pe_dict U) av a ch = Ok (EUn Exp l) /\
+                 evalX Phi (EUn Exp l) en = XR (p i) /\
+                 evalX Phi l en = (if Rnz (aval i) then XR (ln (p i)) else XmInf)) /\
+    is_distribution (keys U) aval p.
+Proof. exact nested_proper. Qed.
+Print Assumptions T05e_nested_proper.
+
+Definition N0 : nn_arg := NNLegacy [(PE (EBeta "mu1" false), [1; 2]%Z)].
+
+Example T05e_example : forall Phi,
+  av_ok Phi en0 A0 aval0 /\ av_covers A0 (keys U0) /\
+  (forall k e, In (k, e) U0 -> aval0 k <> 0 -> evalX Phi e en0 = XR ((fun _ => 0) k)) /\
+  nests_ok Phi en0 (nn_arg_nests N0) /\
+  (exists ch0 t0, lognested (pe_dict U0) A0 N0 ch0 = Ok t0).
+Proof.
+  intros Phi. split; [apply T05a_example|]. split; [intros k H; exact H|]. split; [|split].
+  - intros k e H _. in_cases H; reflexivity.
+  - intros m H. in_cases H. destruct H as [<-|[]]. exists 2. split; [reflexivity|]. apply not_eq_sym, Rlt_not_eq, Rlt_0_2.
+  - exists (PN d_one). eexists. vm_compute. reflexivity.
+Qed.
+
+Theorem T05e_nested_mu_proper : forall Phi en (U : dict expr) (av : avail) (a : nn_arg) (mu : pv) (muv : R)
+    (aval uval : Z -> R),
+  av_ok Phi en av aval -> av_covers av (keys U) ->
+  (forall k e, In (k, e) U -> aval k <> 0 -> evalX Phi e en = XR (uval k)) ->
+  pvX Phi en mu = XR muv -> 0 < muv ->
+  nests_ok Phi en (nn_arg_nests a) ->
+  (exists k, In k (keys U) /\ aval k <> 0) ->
+  (exists ch0 t0, lognested_mev_mu (pe_dict U) av a ch0 mu = Ok t0) ->
+  exists p,
+    (forall i ch, In i (keys U) -> pvX Phi en ch = XR (IZR i) ->
+       exists l, lognested_mev_mu (pe_dict U) av a ch mu = Ok l /\
+                 nested_mev_mu (pe_dict U) av a ch mu = Ok (EUn Exp l) /\
+                 evalX Phi (EUn Exp l) en = XR (p i) /\
+                 evalX Phi l en = (if Rnz (aval i) then XR (ln (p i)) else XmInf)) /\
+    is_distribution (keys U) aval p.
+Proof. exact nested_mu_proper. Qed.
+Print Assumptions T05e_nested_mu_proper.
+
+Example T05e_mu_example : forall Phi,
+  pvX Phi en0 (PE (EBeta "MU" true)) = XR 2 /\ 0 < 2 /\
+  (exists ch0 t0, lognested_mev_mu (pe_dict U0) A0 N0 ch0 (PE (EBeta "MU" true)) = Ok t0).
+Proof.
+  intros Phi. split; [reflexivity|]. split; [apply Rlt_0_2|].
+  exists (PN d_one). eexists. vm_compute. reflexivity.
+Qed.
+
+(* ------------------------------------------------------------------ cross-nested logit *)
+Theorem T05f_cnl_proper : forall Phi en (U : dict expr) (av : avail) (a : cn_arg) (aval uval : Z -> R),
+  av_ok Phi en av aval -> av_covers av (keys U) -> (forall k, 0 <= aval k) ->
+  (forall k e, In (k, e) U -> evalX Phi e en = XR (uval k)) ->
+  cnests_ok Phi en (cn_arg_nests a) ->
+  (exists k, In k (keys U) /\ aval k <> 0) ->
+  (exists ch0 t0, logcnl (pe_dict U) av a ch0 = Ok t0) ->
+  exists p,
+    (forall i ch, In i (keys U) -> pvX Phi en ch = XR (IZR i) ->
+       exists l, logcnl (pe_dict U) av a ch = Ok l /\
+                 cnl (pe_dict U) av a ch = Ok (EUn Exp l) /\
+                 evalX Phi (EUn Exp l) en = XR (p i) /\
+                 evalX Phi l en = (if Rnz (aval i) then XR (ln (p i)) else XmInf)) /\
+    is_distribution (keys U) aval p.
+Proof. exact cnl_proper. Qed.
+Print Assumptions T05f_cnl_proper.
+
+Definition C0 : cn_arg :=
+  CNLegacy [(PE (EBeta "mu1" false), [(1, PN (1, -1)); (2, PN d_one)]%Z);
+            (PE (EBeta "mu2" false), [(1, PN (1, -1)); (3, PE (EBeta "alpha" true))]%Z)].
+
+Lemma half_pos : 0 < D2R (1, -1)%Z.
+Proof. unfold D2R. simpl. apply Rmult_lt_0_compat; [apply Rlt_0_1|]. apply Rinv_0_lt_compat. rewrite Rmult_1_r. apply Rlt_0_2. Qed.
+
+Example T05f_example : forall Phi,
+  (forall k, 0 <= aval0 k) /\
+  (forall k e, In (k, e) U0 -> evalX Phi e en0 = XR ((fun _ => 0) k)) /\
+  cnests_ok Phi en0 (cn_arg_nests C0) /\
+  (exists ch0 t0, logcnl (pe_dict U0) A0 C0 ch0 = Ok t0).
+Proof.
+  intros Phi. split; [|split; [|split]].
+  - intros k. unfold aval0. destruct (k =? 2)%Z; [apply Rle_refl|apply Rle_0_1].
+  - intros k e H. in_cases H; reflexivity.
+  - intros m H. simpl in H. destruct H as [<-|[<-|[]]]; (split;
+      [exists 2; split; [reflexivity|apply not_eq_sym, Rlt_not_eq, Rlt_0_2]|]);
+      intros j p Hin; in_cases Hin; eexists; (split; [reflexivity|]);
+      try apply half_pos; try apply Rlt_0_2; rewrite D2R_one; apply Rlt_0_1.
+  - exists (PN d_one). eexists. vm_compute. reflexivity.
+Qed.
+
+Theorem T05f_cnlmu_proper : forall Phi en (U : dict expr) (av : avail) (a : cn_arg) (mu : pv) (muv : R)
+    (aval uval : Z -> R),
+  av_ok Phi en av aval -> av_covers av (keys U) -> (forall k, 0 <= aval k) ->
+  (forall k e, In (k, e) U -> evalX Phi e en = XR (uval k)) ->
+  pvX Phi en mu = XR muv -> 0 < muv ->
+  cnests_ok Phi en (cn_arg_nests a) ->
+  (exists k, In k (keys U) /\ aval k <> 0) ->
+  (exists ch0 t0, logcnlmu (pe_dict U) av a ch0 mu = Ok t0) ->
+  exists p,
+    (forall i ch, In i (keys U) -> pvX Phi en ch = XR (IZR i) ->
+       exists l, logcnlmu (pe_dict U) av a ch mu = Ok l /\
+                 cnlmu (pe_dict U) av a ch mu = Ok (EUn Exp l) /\
+                 evalX Phi (EUn Exp l) en = XR (p i) /\
+                 evalX Phi l en = (if Rnz (aval i) then XR (ln (p i)) else XmInf)) /\
+    is_distribution (keys U) aval p.
+Proof. exact cnlmu_proper. Qed.
+Print Assumptions T05f_cnlmu_proper.
+
+Example T05f_mu_example :
+  exists ch0 t0, logcnlmu (pe_dict U0) A0 C0 ch0 (PE (EBeta "MU" true)) = Ok t0.
+Proof. exists (PN d_one). eexists. vm_compute. reflexivity. Qed.
+
+(* ------------------------------------------------------------------ shift invariance *)
+Theorem T05g_logit_shift_invariant : forall Phi en (util util' : dict pv) (av : avail) (aval uval : Z -> R) (c : R),
+  av_ok Phi en av aval -> av_covers av (keys util) -> keys util' = keys util ->
+  (forall k p, In (k, p) util -> aval k <> 0 -> pvX Phi en p = XR (uval k)) ->
+  (forall k p, In (k, p) util' -> aval k <> 0 -> pvX Phi en p = XR (uval k + c)) ->
+  forall i ch, In i (keys util) -> pvX Phi en ch = XR (IZR i) ->
+    evalX Phi (EUn Exp (loglogit_e util' av ch)) en = evalX Phi (EUn Exp (loglogit_e util av ch)) en /\
+    evalX Phi (loglogit_e util' av ch) en = evalX Phi (loglogit_e util av ch) en.
+Proof. exact logit_shift_invariant. Qed.
+Print Assumptions T05g_logit_shift_invariant.
+
+Theorem T05g_nested_shift_invariant : forall Phi en (U U' : dict expr) (av : avail) (a : nn_arg)
+    (aval uval : Z -> R) (c : R),
+  av_ok Phi en av aval -> av_covers av (keys U) -> keys U' = keys U ->
+  (forall k e, In (k, e) U -> aval k <> 0 -> evalX Phi e en = XR (uval k)) ->
+  (forall k e, In (k, e) U' -> aval k <> 0 -> evalX Phi e en = XR (uval k + c)) ->
+  nests_ok Phi en (nn_arg_nests a) -> nests_exact (nn_arg_nests a) ->
+  forall i ch l l', In i (keys U) -> pvX Phi en ch = XR (IZR i) ->
+    lognested (pe_dict U) av a ch = Ok l -> lognested (pe_dict U') av a ch = Ok l' ->
+    evalX Phi l' en = evalX Phi l en /\ evalX Phi (EUn Exp l') en = evalX Phi (EUn Exp l) en.
+Proof. exact nested_shift_invariant. Qed.
+Print Assumptions T05g_nested_shift_invariant.
+
+Theorem T05g_nested_mu_shift_invariant : forall Phi en (U U' : dict expr) (av : avail) (a : nn_arg)
+    (mu : pv) (muv : R) (aval uval : Z -> R) (c : R),
+  av_ok Phi en av aval -> av_covers av (keys U) -> keys U' = keys U ->
+  (forall k e, In (k, e) U -> aval k <> 0 -> evalX Phi e en = XR (uval k)) ->
+  (forall k e, In (k, e) U' -> aval k <> 0 -> evalX Phi e en = XR (uval k + c)) ->
+  pvX Phi en mu = XR muv -> 0 < muv ->
+  nests_ok Phi en (nn_arg_nests a) -> nests_exact (nn_arg_nests a) -> mus_exact mu (nn_arg_nests a) ->
+  forall i ch l l', In i (keys U) -> pvX Phi en ch = XR (IZR i) ->
+    lognested_mev_mu (pe_dict U) av a ch mu = Ok l -> lognested_mev_mu (pe_dict U') av a ch mu = Ok l' ->
+    evalX Phi l' en = evalX Phi l en /\ evalX Phi (EUn Exp l') en = evalX Phi (EUn Exp l) en.
+Proof. exact nested_mu_shift_invariant. Qed.
+Print Assumptions T05g_nested_mu_shift_invariant.
+
+Theorem T05g_cnl_shift_invariant : forall Phi en (U U' : dict expr) (av : avail) (a : cn_arg)
+    (aval uval : Z -> R) (c : R),
+  av_ok Phi en av aval -> av_covers av (keys U) -> (forall k, 0 <= aval k) -> keys U' = keys U ->
+  (forall k e, In (k, e) U -> evalX Phi e en = XR (uval k)) ->
+  (forall k e, In (k, e) U' -> evalX Phi e en = XR (uval k + c)) ->
+  cnests_ok Phi en (cn_arg_nests a) -> cnests_exact (cn_arg_nests a) ->
+  forall i ch l l', In i (keys U) -> pvX Phi en ch = XR (IZR i) ->
+    logcnl (pe_dict U) av a ch = Ok l -> logcnl (pe_dict U') av a ch = Ok l' ->
+    evalX Phi l' en = evalX Phi l en /\ evalX Phi (EUn Exp l') en = evalX Phi (EUn Exp l) en.
+Proof. exact cnl_shift_invariant. Qed.
+Print Assumptions T05g_cnl_shift_invariant.
+
+Theorem T05g_cnlmu_shift_invariant : forall Phi en (U U' : dict expr) (av : avail) (a : cn_arg)
+    (mu : pv) (muv : R) (aval uval : Z -> R) (c : R),
+  av_ok Phi en av aval -> av_covers av (keys U) -> (forall k, 0 <= aval k) -> keys U' = keys U ->
+  (forall k e, In (k, e) U -> evalX Phi e en = XR (uval k)) ->
+  (forall k e, In (k, e) U' -> evalX Phi e en = XR (uval k + c)) ->
+  pvX Phi en mu = XR muv -> 0 < muv ->
+  cnests_ok Phi en (cn_arg_nests a) -> cnests_exact (cn_arg_nests a) -> cmus_exact mu (cn_arg_nests a) ->
+  forall i ch l l', In i (keys U) -> pvX Phi en ch = XR (IZR i) ->
+    logcnlmu (pe_dict U) av a ch mu = Ok l -> logcnlmu (pe_dict U') av a ch mu = Ok l' ->
+    evalX Phi l' en = evalX Phi l en /\ evalX Phi (EUn Exp l') en = evalX Phi (EUn Exp l) en.
+Proof. exact cnlmu_shift_invariant. Qed.
+Print Assumptions T05g_cnlmu_shift_invariant.
+
+(* non-vacuity of the shift theorems: the utilities x_k + 5 (value 5) against x_k (value 0);
+   the exactness side conditions hold for parameters given as expressions and for the literal 1.0 *)
+Definition U0s : dict expr :=
+  [(1, EBin Plus (EVar "x1") (ENumD (5, 0))); (2, EBin Plus (EVar "x2") (ENumD (5, 0)));
+   (3, EBin Plus (EVar "x3") (ENumD (5, 0)))]%Z.
+
+Example T05g_example : forall Phi,
+  keys U0s = keys U0 /\
+  (forall k e, In (k, e) U0s -> evalX Phi e en0 = XR ((fun _ => 0) k + 5)) /\
+  nests_exact (nn_arg_nests N0) /\ cnests_exact (cn_arg_nests C0) /\
+  nests_exact [mkNN (PN d_one) [1; 2]%Z] /\
+  (exists l l', lognested (pe_dict U0) A0 N0 (PN d_one) = Ok l /\ lognested (pe_dict U0s) A0 N0 (PN d_one) = Ok l') /\
+  (exists l l', logcnl (pe_dict U0) A0 C0 (PN d_one) = Ok l /\ logcnl (pe_dict U0s) A0 C0 (PN d_one) = Ok l').
+Proof.
+  intros Phi. split; [reflexivity|]. split; [|split; [|split; [|split; [|split]]]].
+  - intros k e H. in_cases H; simpl; unfold D2R; simpl; f_equal; ring.
+  - intros m H. simpl in H. destruct H as [<-|[]]. exact I.
+  - intros m H. simpl in H. destruct H as [<-|[<-|[]]]; exact I.
+  - intros m H. simpl in H. destruct H as [<-|[]]. apply nl_exact_one.
+  - eexists; eexists; split; vm_compute; reflexivity.
+  - eexists; eexists; split; vm_compute; reflexivity.
+Qed.
+
+(* ------------------------------------------------------------------ log-probability = log of probability *)
+(* T05h: by construction every probability builder returns exp(tree of the log builder), for all
+   arguments; the value statements are part of the T05a/d/e/f theorems above
+   (value of the log tree = ln (p i), or -inf exactly when p i = 0 by unavailability) *)
+Theorem T05h_prob_is_exp_of_log :
+  (forall util av ch t, logit util av ch = Ok t <-> exists l, loglogit util av ch = Ok l /\ t = EUn Exp l) /\
+  (forall util g av ch t, mev util g av ch = Ok t <-> exists l, logmev util g av ch = Ok l /\ t = EUn Exp l) /\
+  (forall util av a ch t, nested util av a ch = Ok t <-> exists l, lognested util av a ch = Ok l /\ t = EUn Exp l) /\
+  (forall util av a ch mu t, nested_mev_mu util av a ch mu = Ok t
+                             <-> exists l, lognested_mev_mu util av a ch mu = Ok l /\ t = EUn Exp l) /\
+  (forall util av a ch t, cnl util av a ch = Ok t <-> exists l, logcnl util av a ch = Ok l /\ t = EUn Exp l) /\
+  (forall util av a ch mu t, cnlmu util av a ch mu = Ok t
+                             <-> exists l, logcnlmu util av a ch mu = Ok l /\ t = EUn Exp l).
+Proof. exact prob_is_exp_of_log. Qed.
+Print Assumptions T05h_prob_is_exp_of_log.
+
+Theorem T05h_value_of_exp : forall Phi en l,
+  evalX Phi (EUn Exp l) en
+  = match evalX Phi l en with XR x => XR (exp x) | XmInf => XR 0 | XNaN => XNaN end.
+Proof. exact ev_exp_of_log. Qed.
+Print Assumptions T05h_value_of_exp.
+
+(* ------------------------------------------------------------------ ordered logit / probit *)
+(* T05i + T05j.  ps lists the values of the probabilities of the categories, in order. *)
+Theorem T05i_ordered_logit_proper : forall Phi en x xv tau_name fixed tv (dv : Z -> R) vals D,
+  evalX Phi x en = XR xv -> e_beta en tau_name = Some tv ->
+  (2 <= List.length vals)%nat -> NoDup vals ->
+  (forall it, In it (init (tl vals)) -> e_beta en (diff_name tau_name it) = Some (dv it)) ->
+  ordered_logit x vals (EBeta tau_name fixed) = Ok D ->
+  exists ps,
+    keys D = vals /\
+    Forall2 (fun kv p => evalX Phi (snd kv) en = XR p) D ps /\
+    Rlsum ps = 1 /\
+    ((forall it, In it (init (tl vals)) -> 0 <= dv it) -> Forall in_unit ps).
+Proof. exact ordered_logit_proper. Qed.
+Print Assumptions T05i_ordered_logit_proper.
+
+(* the normal cdf is external: monotonicity and range are hypotheses on Phi *)
+Theorem T05i_ordered_probit_proper : forall Phi en x xv tau_name fixed tv (dv : Z -> R) vals D,
+  evalX Phi x en = XR xv -> e_beta en tau_name = Some tv ->
+  (2 <= List.length vals)%nat -> NoDup vals ->
+  (forall it, In it (init (tl vals)) -> e_beta en (diff_name tau_name it) = Some (dv it)) ->
+  ordered_probit x vals (EBeta tau_name fixed) = Ok D ->
+  exists ps,
+    keys D = vals /\
+    Forall2 (fun kv p => evalX Phi (snd kv) en = XR p) D ps /\
+    Rlsum ps = 1 /\
+    ((forall it, In it (init (tl vals)) -> 0 <= dv it) ->
+     (forall a b, a <= b -> Phi a <= Phi b) -> (forall a, 0 <= Phi a <= 1) -> Forall in_unit ps).
+Proof. exact ordered_probit_proper. Qed.
+Print Assumptions T05i_ordered_probit_proper.
+
+Example T05i_example : forall Phi,
+  evalX Phi (EVar "x1") en0 = XR 0 /\ e_beta en0 "tau"%string = Some 2 /\
+  (forall it, In it (init (tl [1; 2; 3; 4]%Z)) -> e_beta en0 (diff_name "tau"%string it) = Some ((fun _ => 2) it)) /\
+  NoDup [1; 2; 3; 4]%Z /\
+  exists D, ordered_logit (EVar "x1") [1; 2; 3; 4]%Z (EBeta "tau" false) = Ok D /\ keys D = [1; 2; 3; 4]%Z.
+Proof.
+  intros Phi. split; [reflexivity|]. split; [reflexivity|]. split; [intros; reflexivity|]. split.
+  - repeat constructor; simpl; intuition congruence.
+  - eexists. split; [vm_compute; reflexivity|reflexivity].
+Qed.
